@@ -100,32 +100,30 @@ theorem parseSection_err (rest : Str) (e : Err) (h : parseSection rest = .error 
       · cases h; exact Or.inr (Or.inr (Or.inl rfl))
       · cases h
 
+theorem skipDelim_err (delim : Str) (ds : Bool) (data : Str) (e : Err) (h : skipDelim delim ds data = .error e) :
+    e = .missingDelimiter := by
+  unfold skipDelim at h
+  simp only at h
+  split at h
+  · split at h
+    · cases h; rfl
+    · split at h
+      · cases h
+      · cases h; rfl
+  · split at h
+    · split at h
+      · cases h
+      · split at h <;> cases h
+    · cases h
+
 theorem parseValue_err (delim : Str) (ds : Bool) (data : Str) (e : Err) (h : parseValue delim ds data = .error e) :
     e = .missingDelimiter := by
   unfold parseValue at h
-  simp only at h
   split at h
   · cases h
   · split at h
-    · rename_i heq
-      split at heq
-      · split at heq
-        · cases heq; cases h; rfl
-        · split at heq
-          · cases heq
-          · cases heq; cases h; rfl
-      · split at heq
-        · split at heq
-          · cases heq
-          · split at heq <;> cases heq
-        · cases heq
-    · split at h
-      · cases h
-      · split at h
-        · split at h
-          · cases h
-          · split at h <;> cases h
-        · cases h
+    · rename_i heq; cases h; exact skipDelim_err _ _ _ _ heq
+    · cases h
 
 theorem parseEntry_err (cfg : Cfg) (st : PState) (org name : Str) (e : Err) (h : parseEntry cfg st org name = .error e) :
     ParseErr e := by
